@@ -483,6 +483,7 @@ def c12(run):
     tv_pipe(run, "C12:hb", 60 if q else 400, ("NoRace", "CloseAtMostOnce"))
     tv_pipe(run, "C12:racedet", 60 if q else 300, ("CloseAtMostOnce",), race=True, seed_off=1)
     sched(run, "C12:sched", 3000 if q else 40000, ("NoRace", "CloseAtMostOnce"))
+    run.vh(["drive-dumpconc", "--n", "8", "--rounds", "6" if q else "60", "--seed", str(run.seed)], "C12:dumps", race=True)
     run.vh(["drive-conc", "--n", "8", "--rounds", "15" if q else "120", "--seed", str(run.seed)], "C12:callers", race=True)
     run.exhaustive = False
 
@@ -614,7 +615,7 @@ def c14(run):
                 "error class, and must still write the recorded bytes for the recorded sources. (ii) ISA: TLC enumerates every instruction sequence of <= N instructions (N=3 quick, 4 "
                 "thorough) over 57 instruction forms of all 31 opcodes that is well-formed along every path, assembles it with EncodeProg and computes the outcome with BclVM; the real "
                 "LoadProg + Execute must agree. (iii) LAYOUT: real dumps of generated programs are decoded by the specification's independent decoder and must re-encode byte-identically "
-                "(magic, version, name, code, typed constants, positions, line table, canonical varints, nothing trailing). MC: the format functions (shared with C09). "
+                "(magic, version, name, code, typed constants, positions, line table, canonical varints, nothing trailing); eight programs (some far larger than the 4096-byte buffers) dumped and loaded at the same time give the files each gives alone. MC: the format functions (shared with C09). "
                 "Non-trivial = every file / sequence of >= 2 instructions / every dump.")
     mc_format(run)
     run.vh(["corpus-check", "--dir", os.path.join(vlib.VERIF, "corpus")], "C14:corpus")
@@ -625,6 +626,8 @@ def c14(run):
     # dumps whose sizes and lengths need 2- and 3-byte varints (string constants / identifiers / offsets of up to 2400 bytes)
     d2, n2 = real_dumps(run, "C14:sizes", [("Gen_Format", gen_cfg(dict(Scope="sizes", MaxConsts=1)), {})], 400, stride=1, maxlen=12000)
     tlc_on_dumps(run, "C14:sizes-layout", d2, n2, ("RoundTrip",))
+    # writing a file is a function of the program: dumps (and loads) running at the same time give the bytes each gives alone
+    run.vh(["drive-dumpconc", "--n", "8", "--rounds", "8" if run.quick else "80", "--seed", str(run.seed)], "C14:concurrent")
     run.exhaustive = False
 
 
